@@ -181,6 +181,9 @@ structure St' where
   prevTags : Tags × Tags := ([], [])
   /-- previous local views of the follower coordinators (3-node part) -/
   followers : List (String × LState) := []
+  /-- when each worker last registered or sent a heartbeat (what `last_heartbeat` would be without the
+  re-stamping of `sync_from_raft`) -/
+  trueHb : List (String × Nat) := []
 
 def compName : Comp → String
   | .wset => "worker-set" | .status => "worker-status" | .book => "worker-bookkeeping"
@@ -193,13 +196,29 @@ def tagsAgree (tl tr : Tags) : Bool :=
 def compOk (c : Comp) (s : Sys) (tags : Tags × Tags) : Bool :=
   compSyncB c s.l s.r && (c != .groups || tagsAgree tags.1 tags.2)
 
+/-- workers Ready in `l` whose last real heartbeat is older than the time-out at `now` -/
+def silentWorkers (st : St') (l : LState) (now : Nat) : List String :=
+  (l.workers.filter fun e => e.2.status == WStatus.ready &&
+    match st.trueHb.find? (·.1 == e.1) with
+    | some (_, t) => decide (now - t > l.timeout)
+    | none => false).map (·.1)
+
 def finish (st : St') (op? : Option Op) (modelAnswer : String) (implAnswer lDump rDump : String) : St' × String :=
   match parseLDump st.timeout false lDump, parseRDump rDump with
   | some (il, tl), some (ir, tr) =>
     let model : Sys := match op? with | some op => step st.prev op | none => st.prev
     -- `pending_rebalance` is not dumped: it does not take part in the comparison
     let impl : Sys := { l := { il with pending := model.l.pending }, r := ir }
-    let st2 := { st with prev := impl, prevTags := (tl, tr) }
+    let hb2 := match op? with
+      | some (.register id _ _ _ _ now) => (id, now) :: st.trueHb.filter (·.1 != id)
+      | some (.heartbeat id _ _ now) => if (st.prev.l.workers.get id).isSome then (id, now) :: st.trueHb.filter (·.1 != id) else st.trueHb
+      | _ => st.trueHb
+    let st2 := { st with prev := impl, prevTags := (tl, tr), trueHb := hb2 }
+    -- a sweep that leaves a silent worker Ready: the time-out was masked by the re-stamping of sync_from_raft
+    let masked := match op? with
+      | some (.tickSweep now) => (silentWorkers st st.prev.l now).filter fun id =>
+          match impl.l.workers.get id with | some w => w.status == WStatus.ready | none => false
+      | _ => []
     let broken := Comp.all.filter fun c => compOk c st.prev st.prevTags && !compOk c impl (tl, tr)
     let isSync := match op? with | some (.tickSync _) => true | _ => false
     let reverted := if isSync then
@@ -222,7 +241,10 @@ def finish (st : St') (op? : Option Op) (modelAnswer : String) (implAnswer lDump
       if modelLine != implLine then (st2, s!"DIFF model={modelLine}")
       else match listed with
         | (id, c) :: _ => (st2, s!"KNOWN[{id}] {compName c} not replicated by this call; the next sync_from_raft reverts it")
-        | [] => (st2, "ok")
+        | [] =>
+          if !masked.isEmpty then
+            (st2, s!"KNOWN[C38-sync-refreshes-heartbeat-stamps] workers {masked} sent no heartbeat for longer than the time-out and stay Ready: sync_from_raft re-stamped them")
+          else (st2, "ok")
   | _, _ => (st, "BADLINE dump")
 
 def b01 (s : String) : Bool := s == "1"
